@@ -43,12 +43,17 @@ def err_code(msg):
 # unix times on day / month / year / leap-day / week boundaries and odd hours
 TIME_POOL = [1325376000, 1325376000 + 6 * 3600, 1325462400, 1327968000, 1328054400 + 12 * 3600, 1330473600,
              1330560000, 1356912000, 1356998400, 1357016400, 951782400, 951868800, 1204243200 + 18 * 3600,
-             86400 * 365, 1330300800, 1330300800 + 1800]
+             86400 * 365, 1330300800, 1330300800 + 1800,
+             -43200, -86400 * 400 + 6 * 3600, -86400 * 400]           # before 1970 (hindcasts), not all at 00 UTC
 LEAD_POOL = [0.0, 1.0, 1.5, 3.0, 6.0, 12.0, 23.0, 24.0, 25.5, 47.999, 48.0, 72.0]
 LOC_POOL = [(1, 60.0, 10.0, 100.0), (2, 60.5, 10.5, 0.0), (7, 59.0, -120.0, 250.0), (18, -33.5, 151.25, 12.0),
             (41, 60.0, 10.0, 100.0), (3, 89.0, 179.0, 2500.0), (100, 0.0, 0.0, -5.0),
             (55, 45.0, 200.5, 30.0), (56, -10.0, 359.0, 5.0)]          # longitudes in the 0..360 convention
 FIELDS = ["obs", "fcst", "pit", "other0"]
+
+
+INF_RATE = 0.0      # share of cells holding an infinite value ("inf" / "-inf" in the spec); set by the checks that exercise it.
+# An infinite value in an input is a value the scores cannot use: the model reads it as missing (None).
 
 
 def gen_cube(rng, nt, nl, ns, miss):
@@ -62,6 +67,8 @@ def gen_cube(rng, nt, nl, ns, miss):
             for _ in range(ns):
                 if rng.random() < miss:
                     row.append(None)
+                elif INF_RATE and rng.random() < INF_RATE:
+                    row.append(rng.choice(["inf", "inf", "-inf"]))
                 elif const:
                     row.append(cval)
                 else:
@@ -249,7 +256,7 @@ def mem_input(spec, name):
     m.quantile_scores = None
 
     def arr(c):
-        return np.array([[[NAN if v is None else v for v in r] for r in p] for p in c], float).reshape(
+        return np.array([[[NAN if v is None else (float(v) if isinstance(v, str) else v) for v in r] for r in p] for p in c], float).reshape(
             len(spec["times"]), len(spec["leads"]), len(spec["locs"]))
     m.obs = arr(spec["fields"]["obs"]) if "obs" in spec["fields"] else None
     m.fcst = arr(spec["fields"]["fcst"]) if "fcst" in spec["fields"] else None
@@ -330,7 +337,7 @@ def zint(x):
 
 
 def qlit(v):
-    if v is None:
+    if v is None or isinstance(v, str):      # "inf" / "-inf": unusable, read as missing by the model
         return "None"
     fr = Fraction(str(v))
     return "(Some (%d # %d)%%Q)" % (fr.numerator, fr.denominator)
